@@ -2291,6 +2291,13 @@ fn observe_itxt_inflated(ctx: &mut Ctx) {
                 J::obj().set("op", J::s("observe-itxt-inflated")).set("raw", J::s(&hex(raw))),
             );
         }
+        if let Ok(Err(c)) = &written {
+            let valid = std::str::from_utf8(raw).is_ok();
+            ctx.rep.count("iTXt compressed=false on a Compressed text", &format!("{}: refused by encode ({})", if valid { "valid UTF-8" } else { "invalid UTF-8" }, c));
+            if valid {
+                ctx.rep.violation("oracle", "enc/i/inflated-refused", &format!("a compressed payload that is valid UTF-8 was refused: {}", c), J::obj().set("op", J::s("observe-itxt-inflated")).set("raw", J::s(&hex(raw))));
+            }
+        }
         if let Ok(Ok(body)) = &written {
             let back = decode_body('i', body, false);
             let valid = std::str::from_utf8(raw).is_ok();
